@@ -83,6 +83,9 @@ def consumer_all_orders():
                     bad.append({'key': 'wrong-final-state', 'detail': f'{label}: completed with {res.InvocationInfo.InvocationState}'})
                 if len(done_at) != 1:
                     bad.append({'key': 'completed-more-than-once', 'detail': f'{label}: completed at {done_at}'})
+                if done_at == ['response'] and pos < len(reports) and resp_state in (S.FINISHED, S.FINISHED_MOD):
+                    # a successful response must wait for its final report part ("all related report parts")
+                    bad.append({'key': 'completed-before-final-report', 'detail': f'{label}: completed from the response alone, the final report part is never attached'})
                 got = [p.InvocationInfo.InvocationState for p in res.report_parts]
                 if any(p.InvocationInfo.TransactionId != tid for p in res.report_parts):
                     bad.append({'key': 'foreign-report-part', 'detail': f'{label}: parts of another transaction in the result'})
